@@ -56,7 +56,7 @@ class FcdWorld(au.CutWorld):
                 first = m.load(st, first.loc)
             except AnalysisError:
                 first = None
-        if first is not None and (au.is_ch(first) or is_popped(first)) and p not in self.prog.bodies and "::<impl char>::" in p:
+        if first is not None and (au.is_ch(first) or is_popped(first)) and not self.prog.is_ws(p) and "::<impl char>::" in p:
             raise ClassRefinement("the code asks %s about a character: the answer is not determined by the character classes %s the rule is stated over" % (p, self.alphabet))
         return au.CutWorld.call(self, m, st, callee, args, term)
 
